@@ -885,6 +885,13 @@ class AsyncFIXConnection:
 
             if self._connection_state <= ConnectionState.DISCONNECTED_BROKEN_CONN:
                 # Got logout probably
+                if (
+                    msg.msg_type == FMsg.LOGOUT
+                    and int(msg[FTag.MsgSeqNum]) == self._session.next_num_in
+                ):
+                    # Logout() was processed, its MsgSeqNum is consumed (journaled
+                    #   in finally), otherwise next Logon() looks like a gap
+                    is_valid_msg_num = True
                 return
 
             msg_seq_num = int(msg[FTag.MsgSeqNum])
